@@ -8,12 +8,20 @@ import (
 	"os"
 	"path/filepath"
 	"sync"
+	"time"
 	"unicode/utf8"
 )
 
 const (
 	DefaultManifestFileName = "MANIFEST"
 	CurrentManifestVersion  = 1
+)
+
+const (
+	// MaxMemTablesLimit bounds MaxMemTables (capacity of the memtable pool's slice)
+	MaxMemTablesLimit = 1 << 16
+	// MaxIntervalSeconds is the largest number of seconds that fits a time.Duration
+	MaxIntervalSeconds = math.MaxInt64 / int64(time.Second)
 )
 
 var (
@@ -148,6 +156,11 @@ func (c *Config) Validate() error {
 		return fmt.Errorf("%w: Max MemTables must be positive", ErrInvalidConfig)
 	}
 
+	// The memtable pool allocates a slice of this capacity when the engine is opened.
+	if c.MaxMemTables > MaxMemTablesLimit {
+		return fmt.Errorf("%w: Max MemTables must not exceed %d", ErrInvalidConfig, MaxMemTablesLimit)
+	}
+
 	if c.SSTableBlockSize <= 0 {
 		return fmt.Errorf("%w: SSTable block size must be positive", ErrInvalidConfig)
 	}
@@ -164,6 +177,12 @@ func (c *Config) Validate() error {
 	// stored in the (JSON) manifest.
 	if !(c.CompactionRatio > 1.0) || math.IsInf(c.CompactionRatio, 0) {
 		return fmt.Errorf("%w: Compaction ratio must be greater than 1.0", ErrInvalidConfig)
+	}
+
+	// Intervals are seconds that become time.Duration values; larger ones overflow and make
+	// time.NewTicker panic when the engine is opened.
+	if c.CompactionInterval > MaxIntervalSeconds {
+		return fmt.Errorf("%w: Compaction interval must not exceed %d seconds", ErrInvalidConfig, MaxIntervalSeconds)
 	}
 
 	// Validate Transaction settings
